@@ -361,9 +361,9 @@ class Gen:
             return {'name': r.choice(['nope', 'n1.nope', '.zz', 'list', 'map']), 'args': [], 'opt': r.random() < 0.2}
         cands = self.decls
         if want == 'error' and not self.bad():
-            cands = [d for d in self.decls if d['k'] == 'error'] or self.decls
+            cands = [d for d in self.decls if d['k'] == 'error'] or ([] if self.well_typed else self.decls)
         elif want == 'nonerror' and not self.bad():
-            cands = [d for d in self.decls if d['k'] not in ('error',)] or self.decls
+            cands = [d for d in self.decls if d['k'] not in ('error',)] or ([] if self.well_typed else self.decls)
         elif want in ('field', 'scalar'):
             cands = [d for d in self.decls if d['k'] in ('enum', 'flags', 'record')]
         if self.well_typed and want == 'error' and cands:
